@@ -173,8 +173,12 @@ def build_env(which, argnames):
                 else:
                     lst = [cell0, junk(name, 'd')]
                 if name in ('au', 'av', 'aw'):
-                    lst[0] = Fraction(0)
-                    outs[name] = lst
+                    # the accumulator already holds the contributions of the
+                    # neighbours seen so far (arbitrary): what is claimed is
+                    # antisymmetry of the INCREMENT, so `=` instead of `+=`
+                    # does not pass
+                    lst[0] = z3.Real('acc0_%s_%s' % (name, who))
+                    outs[name] = lst[0]
             else:
                 lst = [val(name, who) if name in SHARED_CONSTANTS
                        else junk(name, 's'), val(name, who)]
@@ -433,8 +437,10 @@ def task_eq(ctx, repo, modname, cls, central):
             if a.kind != 'return' or b.kind != 'return':
                 lin.append(Obligation('raise', hy, z3.BoolVal(False), mm.path))
                 continue
-            da = [a.state.env['d_' + k][0] for k in ('au', 'av', 'aw')]
-            db = [b.state.env['d_' + k][0] for k in ('au', 'av', 'aw')]
+            da = [S.sub(a.state.env['d_' + k][0], out1[k])
+                  for k in ('au', 'av', 'aw')]
+            db = [S.sub(b.state.env['d_' + k][0], out2[k])
+                  for k in ('au', 'av', 'aw')]
             for k in range(3):
                 g = S.cmp('==', S.add(S.mul(ma, da[k]), S.mul(mb, db[k])), 0)
                 lin.append(Obligation('lin.%d.%d.%d' % (i, j, k), hy,
